@@ -1,5 +1,5 @@
 CONSTANTS
-  MaxLen = 8
+  MaxLen = 7
   Cases <- TierCases
 INIT Init
 NEXT Next
